@@ -139,7 +139,7 @@ class Replayer:
         self.reported = 0
         self.suppressed = 0
 
-    def raw(self, hs, tag, projects, variants, env=None, timeout=3000):
+    def raw(self, hs, tag, projects, variants, env=None, timeout=7200):
         inp = W(f"hist_{tag}.ndjson")
         out = W(f"result_{tag}.ndjson")
         write_ndjson(inp, hs)
@@ -244,7 +244,11 @@ def main(tier, replay=None):
     if quick:
         n1, n2, nc, nl, nlc, n_len1 = 110, 110, 40, 20, 10, 60
     else:
-        n1, n2, nc, nl, nlc, n_len1 = 4000, 4000, 600, 300, 100, 10 ** 6
+        n1, n2, nc, nl, nlc, n_len1 = 2500, 2500, 500, 200, 80, 10 ** 6
+
+    # C13_SCALE (default 1.0) scales the number of replayed histories (bring-up on a loaded machine)
+    scale = float(os.environ.get("C13_SCALE", "1"))
+    n1, n2, nc, nl, nlc = [max(1, int(x * scale)) for x in (n1, n2, nc, nl, nlc)]
 
     # ---- 1. design: exhaustive BFS + emission of the histories, seeded selection
     r1 = run_tlc(chk, "MCSalsaIncr_q1.cfg", "c13_q1", tl)  # 1 file, histories <= 4
@@ -257,7 +261,7 @@ def main(tier, replay=None):
     log(f"[C13] TLC {cfg2}: {r2.generated} states generated, {r2.distinct} distinct ({r2.wall:.0f}s)")
     tot2, l1b, s2 = histories(r2, "2f", n2)
     # ---- long random histories with fused queries
-    nsim = 5 if quick else 40
+    nsim = 5 if quick else 30
     r3 = run_tlc(chk, "MCSalsaIncr_sim.cfg", "c13_sim", tl, simulate=nsim, workers=4 if quick else 8)
     design_ok(r3, "sim")
     _, _, hl = histories(r3, "sim", None, dedupe_prefix=True)
@@ -309,7 +313,8 @@ def main(tier, replay=None):
         "model_agree": t["model_agree"], "model_disagree": t["model_disagree"], "model_disagreement_kinds": rp.kinds,
         "both_panic": t["both_panic"],
         "ops_replayed_by_kind": opk,
-        "distinct_nontrivial": {"rule": "replayed scripts with >= 1 edit step and >= 2 comparisons", "count": t["scripts"]},
+        "distinct_nontrivial": t["scripts"],
+        "rule": "replayed scripts (distinct concretised histories) with >= 1 edit step and >= 2 comparisons",
         "selftest": st,
         "tlc_configs": ["MCSalsaIncr_q1.cfg", cfg2, "MCSalsaIncr_sim.cfg"],
     })
